@@ -12,16 +12,20 @@ MODULES = ("digital_rf_hdf5", "digital_metadata", "list_drf", "ringbuffer", "mir
 
 
 class Module(object):
-    def __init__(self, name, path, rel):
+    def __init__(self, name, path, rel, rename=None):
         self.name = name
         self.path = path
         self.rel = rel
+        self.renamed = dict(rename or {})     # {name in the source: reference name} applied by pynorm (private anchors found by role)
         with open(path, "r", encoding="utf-8") as f:
             self.text = f.read()
         try:
             self.tree = ast.parse(self.text, filename=path)
         except SyntaxError as e:
             raise AnalysisError("cannot parse %s: %s" % (rel, e))
+        if rename:
+            from . import pynorm
+            pynorm.apply(self.tree, rename)
         self.lines = self.text.splitlines()
         self.parents = {}
         for n in ast.walk(self.tree):
@@ -120,6 +124,11 @@ def package(repo=None):
         if not os.path.exists(p):
             raise AnalysisError("module %s.py not found in %s" % (m, base))
         mods[m] = Module(m, p, os.path.join(PY_PKG, m + ".py"))
+    # private anchors are found by role and given their reference names (pynorm); a no-op on the reference tree
+    from . import pynorm
+    ren = pynorm.mapping({k: v.tree for k, v in mods.items()})
+    if ren:
+        mods = {m: Module(m, v.path, v.rel, rename=ren) for m, v in mods.items()}
     _PKG[repo] = mods
     return mods
 
